@@ -109,6 +109,35 @@ impl Collector {
 }
 
 
+//--- Access for the verification harness
+
+#[cfg(feature = "verif-hooks")]
+impl Collector {
+    /// The rsync collector if rsync is enabled.
+    pub fn verif_rsync(&self) -> Option<&rsync::Collector> {
+        self.rsync.as_ref()
+    }
+
+    /// The RRDP collector if RRDP is enabled.
+    pub fn verif_rrdp(&self) -> Option<&rrdp::Collector> {
+        self.rrdp.as_ref()
+    }
+}
+
+#[cfg(feature = "verif-hooks")]
+impl<'a> Run<'a> {
+    /// The rsync runner if rsync is enabled.
+    pub fn verif_rsync(&self) -> Option<&rsync::Run<'a>> {
+        self.rsync.as_ref()
+    }
+
+    /// The RRDP runner if RRDP is enabled.
+    pub fn verif_rrdp(&self) -> Option<&rrdp::Run<'a>> {
+        self.rrdp.as_ref()
+    }
+}
+
+
 //------------ Run -----------------------------------------------------------
 
 /// Using the collector for a single validation run.
